@@ -178,6 +178,11 @@ def run(ctx):
     # strip_suffix takes the part split_suffix leaves before the suffix: the trie class against the publicsuffix.org algorithm
     from .c08 import model_table
     model_table(ctx, "R12")
+    U.rule_special_hosts(ctx, "R13")
+    # the '&amp;' repair runs before the language items are filtered: every spelling of the entity, whatever its case
+    from .c05 import mistakes_language
+    ctx.rule("R14", "the '&amp;' repair rewrites exactly the entities, in every letter case and spelling of ';' (gl / hl behind '&AMP;' are still language items)")
+    mistakes_language(ctx, "R14")
 
 
 INVARIANCE_BASES = [
